@@ -69,14 +69,14 @@ def _rtsafe_contract(f, x0, bracket, settings):
     key += [jnp.ravel(jnp.asarray(v, dtype=float)) for v in (x0, bracket[0], bracket[1], settings.x_tol, settings.r_tol)]
     x = jx.havoc(jnp.concatenate(key), 'root_' + label)[0]
     lb, ub = bracket[0], bracket[1]
-    x = contract_p.bind(x, lb, ub, f(lb), f(ub), f(x), jnp.asarray(settings.r_tol, dtype=float), site=label)
+    x = contract_p.bind(x, lb, ub, f(lb), f(ub), f(x), jnp.asarray(settings.r_tol, dtype=float), jnp.asarray(settings.x_tol, dtype=float), site=label)
     return x, None
 
 
 def _contract_eval(ctx, P_, iv):
-    x, lb, ub, rl, rh, rx, rtol = [s0(v) for v in iv]
+    x, lb, ub, rl, rh, rx, rtol, xtol = [s0(v) for v in iv]
     g = ctx.guard()
-    rec = dict(guard=g if g is not None else True, x=x, lb=lb, ub=ub, rl=rl, rh=rh, rx=rx, rtol=rtol)
+    rec = dict(guard=g if g is not None else True, x=x, lb=lb, ub=ub, rl=rl, rh=rh, rx=rx, rtol=rtol, xtol=xtol)
     post = v_and(v_le(lb, x), v_le(x, ub), v_le(v_abs(rx), rtol))
     rec['post'] = post
     if getattr(ctx, 'c09_assume_post', True) and isz(post):
@@ -112,7 +112,7 @@ def recording(store):
         fl = lambda v: float(onp.asarray(v))
         try:
             store.setdefault(_SITE[0], []).append(dict(guard=True, x=fl(x), lb=fl(bracket[0]), ub=fl(bracket[1]), rl=fl(f(bracket[0])),
-                                                       rh=fl(f(bracket[1])), rx=fl(f(x)), rtol=fl(settings.r_tol)))
+                                                       rh=fl(f(bracket[1])), rx=fl(f(x)), rtol=fl(settings.r_tol), xtol=fl(settings.x_tol)))
         except jax.errors.TracerArrayConversionError:
             pass        # call under differentiation (stress): the same site was recorded by the plain evaluation before
         return out
@@ -123,7 +123,7 @@ def recording(store):
         SRF.find_root = real
 
 
-_ABSENT = dict(guard=False, x=0.0, lb=0.0, ub=0.0, rl=0.0, rh=0.0, rx=0.0, rtol=0.0, post=True)
+_ABSENT = dict(guard=False, x=0.0, lb=0.0, ub=0.0, rl=0.0, rh=0.0, rx=0.0, rtol=0.0, xtol=0.0, post=True)
 
 
 class Calls:
@@ -200,7 +200,9 @@ class J2Case:
             h.fact('translator_validation[%s]' % label, True,
                    'max rel err %.2e on %d ground runs of the stubbed symbolic path with the stub value := real root; the real root '
                    'satisfied the contract post-condition at all %d executed call sites%s' % (worst, validate - getattr(self, 'nan_samples', 0), n_calls,
-                   '; %d sample(s) skipped because the REAL code returned non-finite values' % self.nan_samples if getattr(self, 'nan_samples', 0) else ''), nontrivial=False)
+                   ('; %d sample(s) skipped because the REAL code returned non-finite values' % self.nan_samples if getattr(self, 'nan_samples', 0) else '')
+                   + ('; at %d executed call site(s) the REAL root did NOT satisfy the contract post-condition (see O0.find_root_contract_at_call_site)' % self.contract_failures
+                      if getattr(self, 'contract_failures', 0) else '')), nontrivial=False)
         self.ctx = jx.Ctx()
         self.ctx.c09_assume_post = assume_post
         self.ctx.c09_calls = {}
@@ -262,7 +264,10 @@ class J2Case:
                         raise jx.JXError('validation: call site %s reached symbolically but not in the real run' % lab)
                     post = jx.ground_num(ctx, tob(rec['post']))
                     if post is not True:
-                        raise jx.JXError('validation: real root violates the find_root contract at site %s (inputs %s)' % (lab, [a.tolist() for a in args]))
+                        # not a translator problem: the REAL find_root result does not meet the contract substituted for it. The verdict is carried by
+                        # O0.find_root_contract_at_call_site (decided, replayable); this obligation keeps using the contract.
+                        self.contract_failures = getattr(self, 'contract_failures', 0) + 1
+                        continue
                     ncalls += 1
         return worst, ncalls
 
@@ -1495,3 +1500,101 @@ def o11(h):
             m2 = v_mul(4.0, v_mul(v_sq(q.mu), v_mul(C_FLOW, v_mul(C_FLOW, q.DD1))))
             return Le(v_sq(v_sub(q.F1, q.tolY)), m2, when=q.g, name='', scale=v_sq(q.Y0))
         ch.close('plane_rate_m1.iv.mises_ge_flow_minus_tol[yielding]', lower)
+
+
+# ------------------------------------------------------------------------------------------ O0 / O12: the root-finder contract at the J2 call site
+CONTRACT_FAMILY = (
+    # label, kind, hardening constants, E, nu, Y0, strain scale, eqps_old
+    ('linear_unit', 'linear', (2.0,), 200.0, 0.3, 1.0, 1.0, 0.002),
+    ('linear_SI', 'linear', (2.0e9,), 200.0e9, 0.3, 350.0e6, 1.0, 0.0),
+    ('voce_unit', 'voce', (2.0, 0.05), 200.0, 0.3, 1.0, 1.0, 0.002),
+    ('voce_SI', 'voce', (700.0e6, 0.05), 200.0e9, 0.3, 350.0e6, 1.0, 0.0),
+    ('voce_SI_hardened', 'voce', (700.0e6, 0.05), 200.0e9, 0.3, 350.0e6, 2.0, 0.1),
+    ('voce_SI_small_step', 'voce', (500.0e6, 0.01), 70.0e9, 0.33, 250.0e6, 0.5, 0.0),
+    ('power_law_SI', 'power law', (4.0, 350.0e6 / 200.0e9), 200.0e9, 0.3, 350.0e6, 1.0, 0.0),
+    ('power_law_unit', 'power law', (3.0, 0.01), 200.0, 0.3, 1.0, 1.0, 0.01),
+)
+
+
+def _contract_run(kind, hard, E, nu, Y0, dg, st, dt):
+    """the unmodified update at concrete inputs; every executed find_root call with its actual arguments and result"""
+    store = {}
+    with recording(store), jax.disable_jit():
+        site('a')
+        m = make_model(E, nu, Y0, tuple(hard), kind=kind)
+        out = onp.asarray(m.compute_state_new(jnp.asarray(dg), jnp.asarray(st), dt))
+    bad = []
+    tol = tol_rel() * Y0       # the residual tolerance the J2 source asks for: r_tol=_TOLERANCE*props[PROPS_Y0]
+    for rec in store.get('a', []):
+        x, lb, ub, rx = rec['x'], rec['lb'], rec['ub'], rec['rx']
+        ok = math.isfinite(x) and math.isfinite(rx) and lb - 1e-12 * (1 + abs(lb)) <= x <= ub + 1e-12 * (1 + abs(ub)) and abs(rx) <= tol
+        if not ok:
+            bad.append(dict(x=x, lb=lb, ub=ub, residual_at_returned_root=rx, r_tol_requested_by_J2=tol, settings_r_tol_as_read_by_rtsafe=rec['rtol'],
+                            settings_x_tol_as_read_by_rtsafe=rec['xtol']))
+    return out, store.get('a', []), bad
+
+
+@obligation(P, 'O0.find_root_contract_at_call_site', cap=300)
+def o0(h):
+    """the contract substituted for ScalarRootFind.find_root in every other obligation (result inside the bracket, |r(result)| <= the
+    r_tol the J2 source asks for, 1e-10*Y0) holds for the REAL find_root at the J2 call site: decided by running the unmodified update
+    (ground check, no solver) on a family of admissible inputs: unit-free and SI-scaled moduli, linear / Voce / power-law hardening,
+    virgin and hardened states, plus VERIF_SEED-seeded draws. A failure is reported as a violation with those inputs."""
+    J2, Hd, SRF, TM = _mods()
+    h.encoded(SRF.find_root, SRF.rtsafe_, SRF.get_settings, J2.update_state, J2.compute_state_increment, Hd.create_hardening_model)
+    h.bounds('ground (variable-free) check on %d fixed configurations + 6 seeded draws; this is the link between the real root finder and the contract (C17 proves the loop '
+             'invariants for an uninterpreted function; here the J2 residual, tolerances and brackets are the real ones)' % len(CONTRACT_FAMILY))
+    h.assume_note('decided by concrete runs of the unmodified code, not by a solver: it validates the stub every other C09 obligation rests on')
+    base = EX['dg']
+
+    def run_one(label, kind, hard, E, nu, Y0, dg, st):
+        vals = dict(config=label, kind=kind, hard=list(hard), E=E, nu=nu, Y0=Y0, dg=onp.asarray(dg).tolist(), st=onp.asarray(st).tolist(), dt=1.0)
+        out, calls, bad = _contract_run(kind, hard, E, nu, Y0, dg, st, 1.0)
+        return vals, out, calls, bad
+    if h.replay is not None:
+        v = h.replay['inputs']
+        _, out, calls, bad = run_one(v['config'], v['kind'], v['hard'], v['E'], v['nu'], v['Y0'], onp.asarray(v['dg']), onp.asarray(v['st']))
+        h.replay_result = dict(status='violated' if bad else 'unreproduced', calls=bad or calls, outputs=out.tolist())
+        return
+    cfgs = []
+    for label, kind, hard, E, nu, Y0, sc, e0 in CONTRACT_FAMILY:
+        st = onp.zeros(10)
+        st[0] = e0
+        cfgs.append((label, kind, hard, E, nu, Y0, sc * base, st))
+    rng = onp.random.default_rng(h.seed)
+    for k in range(6):
+        v = sampler_full(rng)
+        kind = ('linear', 'voce', 'power law')[k % 3]
+        Y0 = float(v[4]) * (350.0e6 if k >= 3 else 1.0)
+        E = float(v[2]) * Y0 / float(v[4])
+        hard = {'linear': (0.01 * E,), 'voce': (2.0 * Y0, 0.03), 'power law': (5.0, 0.01)}[kind]
+        cfgs.append(('seeded_%d_%s' % (k, kind.replace(' ', '_')), kind, hard, E, float(v[3]), Y0, onp.asarray(v[0]) * (5.0 if k >= 3 else 1.0), onp.asarray(v[1])))
+    for label, kind, hard, E, nu, Y0, dg, st in cfgs:
+        vals, out, calls, bad = run_one(label, kind, hard, E, nu, Y0, dg, st)
+        if bad:
+            h.violation('contract[%s]' % label, vals, 'the REAL find_root result violates the contract at the J2 call site: %s' % bad[0])
+        else:
+            h.fact('contract[%s]' % label, True, '%d find_root call(s) executed, max |r(root)|/(1e-10*Y0) = %.2e' % (
+                len(calls), max([abs(c_['rx']) / (tol_rel() * Y0) for c_ in calls] + [0.0])), nontrivial=len(calls) > 0)
+
+
+@obligation(P, 'O12.root_settings_by_field_name', cap=300)
+def o12(h):
+    """the settings record J2 hands to find_root, read BY FIELD NAME as rtsafe_ reads it: r_tol == 1e-10*Y0 (the yield tolerance) and
+    x_tol == 0, for all moduli/strains (JX on the real call expression get_settings(x_tol=0, r_tol=_TOLERANCE*props[PROPS_Y0]) inside
+    update_state); and every keyword of ScalarRootFind.get_settings lands in the Settings field of the same name (PX, generic)"""
+    from .. import px
+    from .c01 import make_generic_settings_harness
+    J2, Hd, SRF, TM = _mods()
+    h.encoded(SRF.get_settings, 'optimism.ScalarRootFind:Settings', J2.update_state)
+    h.bounds('plane-strain block, moduli box as O1 (the settings do not depend on the strain); get_settings: all keyword values symbolic')
+    c = J2Case(h, f_state, EX, build=build_plane, sampler=sampler_full, label='settings_at_call_site', assume_post=False, validate=0)
+
+    def spec(i, o, calls):
+        A = calls('a')
+        g = A['guard']
+        tolY = v_mul(tol_rel(), s0(i['Y0']))
+        return box_moduli(i) + box_state(i) + state_invariant(i['st']), [
+            Eq(A['rtol'], tolY, when=g, name='r_tol_field_is_1e-10_Y0', scale=tolY), Eq(A['xtol'], 0.0, when=g, name='x_tol_field_is_zero', scale=tolY)]
+    c.prove('j2_call', spec, cap=60, order=('core', 'nlsat'))
+    px.run_px(h, 'settings', make_generic_settings_harness('optimism/ScalarRootFind.py'), cap=20)
